@@ -117,12 +117,12 @@ EncVal(legacy, v) ==
 
 \* -------------------------------------------------------------------------
 \* Reference decoder.  A result is [ok |-> TRUE, n |-> bytes consumed, v |-> value]
-\* or Bad.  Lengths >= 2^31 are Bad (no such input exists in any model or trace).
+\* or Bad.  Lengths >= 2^30 are Bad (no such input exists in any model or trace).
 \* -------------------------------------------------------------------------
 Bad == [ok |-> FALSE]
 Got(n, v) == [ok |-> TRUE, n |-> n, v |-> v]
 
-Len32(b) == IF Len(b) < 4 \/ b[1] >= 128 THEN -1 ELSE b[1] * 16777216 + b[2] * 65536 + b[3] * 256 + b[4]
+Len32(b) == IF Len(b) < 4 \/ b[1] >= 64 THEN -1 ELSE b[1] * 16777216 + b[2] * 65536 + b[3] * 256 + b[4]
 
 DecShortStr(b) ==
     IF Len(b) < 1 \/ Len(b) < 1 + b[1] THEN Bad
